@@ -147,8 +147,8 @@ def run(ctx):
     ctx.count("rpu_pool_convertible_in_every_mode", len(uni))
     ejobs, ijobs = [], []
     streams = []
-    n_ext = 400 if quick else 5000
-    n_inj = 300 if quick else 4000
+    n_ext = 600 if quick else 5000
+    n_inj = 450 if quick else 4000
     n_wrap = 4 if quick else 40
 
     def new_stream(r, nfr, pb, rp, **kw):
